@@ -20,8 +20,25 @@ def build_victim(args):
         from vyper.compiler.phases import CompilerData
         from vyper.compiler.settings import anchor_settings
 
-        src = cc.victim_source(pragma)
-        cd = CompilerData(src, settings=cfg.settings())
+        import tempfile
+        from pathlib import Path
+
+        from vyper.compiler.input_bundle import FileInput, FilesystemInputBundle
+
+        src, files = cc.victim_sources(pragma)
+        tmp = Path(tempfile.mkdtemp(prefix="c09v_"))
+        try:
+            for k, v in files.items():
+                (tmp / k).write_text(v)
+            (tmp / "main.vy").write_text(src)
+            fi = FileInput(contents=src, source_id=0, path=Path("main.vy"), resolved_path=tmp / "main.vy")
+            cd = CompilerData(fi, input_bundle=FilesystemInputBundle([tmp]), settings=cfg.settings())
+            with anchor_settings(cd.settings):
+                _ = cd.bytecode   # run the whole pipeline while the module files exist
+                _ = cd.venom_runtime if cfg.venom else cd.ir_runtime
+        finally:
+            import shutil
+            shutil.rmtree(tmp, ignore_errors=True)
         with anchor_settings(cd.settings):
             res = {
                 "bytecode": "0x" + cd.bytecode.hex(),
@@ -39,16 +56,17 @@ def build_victim(args):
                 else:
                     blocks, roots = cg.legacy_functions(cd.ir_runtime, lock_op, slot, temp, final)
                     funcs = {name: cg.extract(blocks, r) for name, r in roots.items()}
+                rich = cg.rich_program(funcs, legacy=not cfg.venom)     # printed before calls are resolved
                 has, unknown = cg.resolve_calls(funcs)
-                terms, names, st = [], [], {"functions": 0, "unknown_key_stores": unknown}
+                names, labs, st = [], [], {"functions": 0, "unknown_key_stores": unknown}
                 for name, bl in funcs.items():
-                    s = cg.stats(bl)
                     st["functions"] += 1
-                    for k, v in s.items():
-                        st[k] = st.get(k, 0) + v
-                    terms.append(cg.coq_cfg(bl, cg.label(bl)))
+                    labs.append(cg.coq_labels(cg.label(bl)))
                     names.append(name)
-                res["cfg_terms"], res["cfg_names"], res["cfg_stats"] = terms, names, st
+                res["rich_program"] = rich
+                res["rich_labels"] = "[" + ";\n ".join(labs) + "]"
+                res["lock_cfg"] = f"(lockcfg_of {'true' if transient else 'false'} {slot})"
+                res["cfg_names"], res["cfg_stats"] = names, st
             except cg.Unclassifiable as e:
                 cfg_err = str(e)
             res["cfg_error"] = cfg_err
